@@ -3,11 +3,15 @@
   run-level model `Model/RunSeq.lean` and prints the observable state after every operation:
     {"current": marker|null, "arch": [[slot, marker]…], "filled": [markers of the existing default-location directories
      holding files], "other": [[k, marker, filled]…]}
+  A run op may carry "tree": [[relative path, "file"|"dir"|"link"]…] — everything the run leaves in its directory (the backends'
+  files, the attachment under the name the test chose, what hooks / tools / a killed save left, any depth); the answer then has
+  "tree": [[marker, [relative paths of the leaves, sorted]]…] for the existing default-location directories (`Model/RunTree.lean`).
   Run: `lake env lean --run drivers/C19Runs.lean`
 -/
 import LccModel.Proto
 import LccModel.Model.RunSeq
 import LccModel.Model.RunContent
+import LccModel.Model.RunTree
 open Lean LccModel LccModel.Proto LccModel.ReportDir LccModel.RunSeq
 
 def parseTarget (j : Json) : Except String (Option Target) :=
@@ -100,8 +104,56 @@ def obsC (s : RunSeq.StC) : Json :=
     (Json.arr (((List.range s.base.fs.next).filter (fun m => ids.contains m)).map (fun (m : Nat) =>
       Json.arr #[Json.num m, Json.arr ((s.content m).map (fun k => Json.str (kindName k))).toArray])).toArray)
 
+/-- insert the leaf `node` at the path `comps` (intermediate directories are created) -/
+def insertPath : List (List Char) → RunSeq.Node → RunSeq.Tree → RunSeq.Tree
+  | [], _, t => t
+  | [n], node, t => if t.any (fun e => e.1 == n) then t else t ++ [(n, node)]
+  | n :: rest, node, t =>
+    match t.find? (fun e => e.1 == n) with
+    | some (_, .dir es) => t.map (fun e => if e.1 == n then (n, RunSeq.Node.dir (insertPath rest node es)) else e)
+    | some _ => t
+    | none => t ++ [(n, RunSeq.Node.dir (insertPath rest node []))]
+
+partial def leafPaths (pre : String) : RunSeq.Tree → List String
+  | [] => []
+  | (n, .dir es) :: rest =>
+    (if es.isEmpty then [pre ++ String.ofList n] else leafPaths (pre ++ String.ofList n ++ "/") es) ++ leafPaths pre rest
+  | (n, _) :: rest => (pre ++ String.ofList n) :: leafPaths pre rest
+
+def parseTree (j : Json) : Except String RunSeq.Tree := do
+  match j.getObjVal? "tree" with
+  | .ok (.arr a) =>
+    a.toList.foldlM (fun (t : RunSeq.Tree) x => do
+      let pair ← x.getArr?
+      let path ← (pair[0]!).getStr?
+      let kind ← (pair[1]!).getStr?
+      let node : RunSeq.Node := match kind with
+        | "dir" => .dir []
+        | "link" => .link []
+        | _ => .file []
+      pure (insertPath ((path.splitOn "/").map String.toList) node t)) []
+  | _ => pure []
+
+def normalizeT (s : RunSeq.StT) : RunSeq.StT :=
+  let b := normalize s.base
+  let ttbl := ((List.range s.base.fs.next).map s.tree).toArray
+  { base := b, tree := fun m => (ttbl[m]?).getD [] }
+
+def obsT (s : RunSeq.StT) : Json :=
+  let ids := (match s.base.fs.current with
+    | some m => [m]
+    | none => []) ++ (listing s.base.fs).map (·.2)
+  Json.arr (((List.range s.base.fs.next).filter (fun m => ids.contains m)).map (fun (m : Nat) =>
+    Json.arr #[Json.num m, Json.arr (((leafPaths "" (s.tree m)).toArray.qsort (· < ·)).map Json.str)])).toArray
+
+def toOpT (j : Json) (op : RunSeq.OpC) : Except String RunSeq.OpT := do
+  match op with
+  | .run c _ => pure (.run c (← parseTree j))
+  | .other o => pure (.other o)
+
 def handle (j : Json) : Except String Json := do
-  let ops ← (← getArr j "ops").toList.mapM parseOp
+  let opsJ := (← getArr j "ops").toList
+  let ops ← opsJ.mapM parseOp
   let rec go (s : RunSeq.StC) (ops : List RunSeq.OpC) (acc : Array Json) : Array Json :=
     match ops with
     | [] => acc
@@ -109,6 +161,26 @@ def handle (j : Json) : Except String Json := do
       match RunSeq.stepC s op with
       | none => acc.push (Json.str "stuck")
       | some s' => let s' := normalizeC s'; go s' rest (acc.push (obsC s'))
-  pure (Json.mkObj [("states", Json.arr (go RunSeq.StC.init ops #[]))])
+  let statesC := go RunSeq.StC.init ops #[]
+  if opsJ.any (fun o => (o.getObjVal? "tree").isOk) then
+    -- tree level: the same history on `StT`; the answer is the kind-level one plus "tree" (and whether both levels agree on the base)
+    let opsT ← (opsJ.zip ops).mapM (fun (oj, op) => toOpT oj op)
+    let rec goT (s : RunSeq.StT) (ops : List RunSeq.OpT) (acc : Array Json) : Array Json :=
+      match ops with
+      | [] => acc
+      | op :: rest =>
+        match RunSeq.stepT s op with
+        | none => acc.push (Json.str "stuck")
+        | some s' => let s' := normalizeT s'; goT s' rest (acc.push ((obs s'.base).setObjVal! "tree" (obsT s')))
+    let statesT := goT RunSeq.StT.init opsT #[]
+    let merged := (statesC.zip statesT).map (fun (c, t) =>
+      match c, t with
+      | .str _, _ => c
+      | _, .str _ => t
+      | c, t =>
+        let same := ["current", "arch", "filled", "other"].all (fun k => (c.getObjVal? k).toOption == (t.getObjVal? k).toOption)
+        if same then c.setObjVal! "tree" ((t.getObjVal? "tree").toOption.getD .null) else Json.str "stuck: tree level and kind level disagree")
+    return Json.mkObj [("states", Json.arr merged)]
+  pure (Json.mkObj [("states", Json.arr statesC)])
 
 def main : IO Unit := loop (wrap handle)
